@@ -159,6 +159,7 @@ def stride_offset(sl: ast.AST) -> Optional[object]:
             return sl.lower.value
         if isinstance(sl.lower, ast.Name):
             return sl.lower.id
+        return norm(sl.lower)
     return None
 
 
